@@ -257,14 +257,22 @@ func (c *Ctx) RuleIsoGlobal(commands ...string) *Result {
 	g := c.Graph()
 	doneGlobal := map[*ssa.Global]bool{}
 	for _, name := range commands {
-		cmd := cm.ByName[name]
-		if cmd == nil {
+		var cbs []*ssa.Function
+		if strings.HasPrefix(name, "unit:") {
+			// the unit of isolation is one call of the named function (one compiled source)
+			for _, fn := range c.P.RepoFns {
+				if load.FnName(fn) == name[len("unit:"):] {
+					cbs = append(cbs, fn)
+				}
+			}
+		} else if cmd := cm.ByName[name]; cmd != nil {
+			cbs = c.perFileCallbacks(cmd)
+		} else {
 			continue
 		}
-		cbs := c.perFileCallbacks(cmd)
 		if len(cbs) == 0 {
 			res.Instances++
-			res.undecided("cmd "+name+":per-file callback", c.P.FnPos(cmd.In), "the command has no directory-walk callback: the per-file unit cannot be identified")
+			res.undecided("cmd "+name+":per-file callback", "", "the command has no directory-walk callback: the per-file unit cannot be identified")
 			continue
 		}
 		reach := g.Reach(cbs)
@@ -835,10 +843,13 @@ func (c *Ctx) touchesGlobal(gl *ssa.Global) map[*ssa.Function]bool {
 // selfCleaning justifies a package variable written in per-file code. It
 // accepts either of two shapes and returns a description, or "":
 // (a) reset before use: in the function F0 through which every per-file access
-//     passes, the first access on every path is a store of a value that does not
-//     depend on the variable;
+//
+//	passes, the first access on every path is a store of a value that does not
+//	depend on the variable;
+//
 // (b) empty after success: F0 returns a possibly-nil error only on paths on
-//     which a lookup on the variable returned nil (the stack is empty).
+//
+//	which a lookup on the variable returned nil (the stack is empty).
 func (c *Ctx) selfCleaning(gl *ssa.Global, cbs []*ssa.Function, reach map[*ssa.Function]*Edge) string {
 	touch := c.touchesGlobal(gl)
 	// candidates for F0: functions in reach that touch gl and dominate, in the call graph,
